@@ -108,7 +108,7 @@ class LoopCtx:
 
 class Executor(ExprMixin, CallMixin):
     def __init__(self, module, registry: Registry, universe: Universe, *,
-                 max_paths=20000, feas_timeout_ms=2000, merge=False, abstract=False, inline_calls=True):
+                 max_paths=20000, feas_timeout_ms=2000, merge=False, abstract=False, inline_calls=True, inline_local=False):
         self.module = module
         self.reg = registry
         self.uni = universe
@@ -120,6 +120,7 @@ class Executor(ExprMixin, CallMixin):
         self.merge = merge
         self.abstract = abstract          # unsupported expressions -> havoc + EXC-ANY (sound over-approximation)
         self.inline_calls = inline_calls  # False: repo functions without contract are EXC-ANY calls
+        self.inline_local = inline_local  # with inline_calls=False: small private helpers of the same module are still inlined
         self.abstracted: list[str] = []
         self.feas = z3.Solver()
         self.feas.set("timeout", feas_timeout_ms)
